@@ -19,3 +19,6 @@ mod c10;
 
 #[cfg(all(kani, feature = "c18"))]
 mod c18;
+
+#[cfg(all(kani, feature = "c11"))]
+mod c11;
